@@ -231,10 +231,15 @@ def obligations():
         obs.append(Obligation(f"C20.dispatch.eff.{arr}", _ob_forms_agree(arr), functions=[hx.HX_Eff], expect=("eff_same_for_member_and_text",),
                               doc="HX_Eff takes the same branch for the enumeration member and for its text"))
     for arr in CLOSED:
-        obs.append(Obligation(f"C20.dispatch.ntu.{arr}", _ob_forms_agree_ntu(arr), functions=[hx.HX_NTU], expect=("ntu_same_for_member_and_text",),
+        # the shell-and-tube relations nest square roots, a fourth root, coth and ln: their inverse proofs take ~10 s of non-linear
+        # reasoning and are not stable under machine load, so they run in the thorough tier with a generous budget
+        heavy = arr == "ShellTube"
+        tier = "thorough" if heavy else "quick"
+        tmo = 180000 if heavy else 20000
+        obs.append(Obligation(f"C20.dispatch.ntu.{arr}", _ob_forms_agree_ntu(arr), functions=[hx.HX_NTU], expect=("ntu_same_for_member_and_text",), tier=tier, timeout_ms=tmo,
                               doc="HX_NTU takes the same (own) branch for both label forms"))
         for form in ("member", "text"):
-            obs.append(Obligation(f"C20.inverse.{arr}.{form}", _ob_roundtrip(arr, form), functions=fs, expect=("ntu_of_eff_is_ntu",), timeout_ms=20000,
+            obs.append(Obligation(f"C20.inverse.{arr}.{form}", _ob_roundtrip(arr, form), functions=fs, expect=("ntu_of_eff_is_ntu",), timeout_ms=tmo, tier=tier,
                                   doc="HX_NTU(HX_Eff(NTU, c), c) == NTU for all NTU > 0, 0 <= c <= 1"))
         obs.append(Obligation(f"C20.mono.{arr}", _ob_mono(arr), functions=[hx.HX_Eff], expect=("eff_nondecreasing_in_ntu",), timeout_ms=20000))
         obs.append(Obligation(f"C20.c0.{arr}", _ob_c0(arr), functions=[hx.HX_Eff], expect=("eff_at_c0_is_one_minus_exp",)))
